@@ -221,6 +221,22 @@ type scenario struct {
 	allT  []string
 	prefH string
 	prefT string
+	meth  string // HTTP method of the request and of the binding (default POST)
+	bpath string // request body path of the binding: "*" (whole body) or "" (bodiless binding)
+}
+
+func (sc *scenario) methodOr() string {
+	if sc.meth == "" {
+		return "POST"
+	}
+	return sc.meth
+}
+
+func (sc *scenario) bodyPathOr() string {
+	if sc.meth == "" {
+		return "*"
+	}
+	return sc.bpath
 }
 
 func kv(tok, key string) string {
@@ -254,10 +270,18 @@ func hexPairs(s string) [][2]string {
 }
 
 func parseScenario(f []string) *scenario {
-	if len(f) != 13 {
-		panic(fmt.Sprintf("e2e line needs 13 fields, got %d", len(f)))
+	if len(f) != 13 && len(f) != 14 {
+		panic(fmt.Sprintf("e2e line needs 13 or 14 fields, got %d", len(f)))
 	}
-	sc := &scenario{}
+	sc := &scenario{meth: "POST", bpath: "*"}
+	if len(f) == 14 { // meth=GET (bodiless binding) | meth=GET* (binding with body: "*")
+		m := kv(f[13], "meth")
+		sc.bpath = ""
+		if strings.HasSuffix(m, "*") {
+			m, sc.bpath = m[:len(m)-1], "*"
+		}
+		sc.meth = m
+	}
 	sc.rpc = kv(f[1], "rpc")
 	if sc.rpc == "U" || sc.rpc == "S" || sc.rpc == "C" {
 		sc.srv = true
@@ -448,7 +472,7 @@ func (r *fakeRouter) RouteHTTP(req *http.Request) (grpcadapter.ClientConn, routi
 	}
 	return r.conn, routing.HTTPRoute{
 		Target: theTarget, Service: theService, Method: m,
-		Binding: &bridgedesc.Binding{HTTPMethod: "POST", Pattern: "/x", RequestBodyPath: "*", ResponseBodyPath: r.sc.rbp},
+		Binding: &bridgedesc.Binding{HTTPMethod: r.sc.methodOr(), Pattern: "/x", RequestBodyPath: r.sc.bodyPathOr(), ResponseBodyPath: r.sc.rbp},
 	}, nil
 }
 
@@ -686,7 +710,7 @@ func execE2E(sc *scenario) string {
 		Forwarder:  &recForwarder{real: fwd, rec: rec},
 	})
 
-	req := httptest.NewRequest("POST", "/x", strings.NewReader(string(sc.body)))
+	req := httptest.NewRequest(sc.methodOr(), "/x", strings.NewReader(string(sc.body)))
 	for _, v := range sc.ct {
 		req.Header.Add("Content-Type", v)
 	}
@@ -707,11 +731,11 @@ func execE2E(sc *scenario) string {
 	var res *http.Response
 	var body []byte
 	late := 0
-	if sc.srv && !sc.gone {
+	if sc.srv && !sc.gone && sc.methodOr() != "HEAD" {
 		// the same request over TCP through net/http's server and client (no client-side cancellation here)
 		srv := httptest.NewServer(bridge)
 		defer srv.Close()
-		creq, err := http.NewRequest("POST", srv.URL+"/x", strings.NewReader(string(sc.body)))
+		creq, err := http.NewRequest(sc.methodOr(), srv.URL+"/x", strings.NewReader(string(sc.body)))
 		if err != nil {
 			return "SRVERR " + common.HexS(err.Error())
 		}
@@ -892,6 +916,7 @@ type line struct {
 	n             int
 	ra, rb        string
 	md            mdSpec
+	meth          string // "" = POST with body binding (13-field line)
 }
 
 func (l line) String() string {
@@ -907,9 +932,13 @@ func (l line) String() string {
 	if t == "" {
 		t = "-"
 	}
-	return fmt.Sprintf("e2e rpc=%s inj=%s err=%s gone=%s ct=%s acc=%s body=%s rbp=%s tmo=%s n=%d resp=%s/%s md=%s",
+	out := fmt.Sprintf("e2e rpc=%s inj=%s err=%s gone=%s ct=%s acc=%s body=%s rbp=%s tmo=%s n=%d resp=%s/%s md=%s",
 		l.rpc, l.inj, e, g, hexListOut(l.ct), hexListOut(l.acc), common.HexS(l.body), common.HexS(l.rbp), t, l.n,
 		common.HexS(l.ra), common.HexS(l.rb), l.md.String())
+	if l.meth != "" {
+		out += " meth=" + l.meth
+	}
+	return out
 }
 
 func sErr(code int, msg, letters string) string {
@@ -1072,6 +1101,18 @@ func (Area) Gen(r *rand.Rand, tier string, emit func(string)) {
 			emit(line{rpc: "s", inj: "target", err: sErr(14, "stream broke", "u"), ct: cc.ct, acc: cc.acc, n: n, ra: "sn", rb: "so", md: stdMD}.String())
 			count("e2e.stream")
 		}
+		// the HTTP method is not an input of the negotiation: GET / HEAD / DELETE / PUT bound routes, bindings with
+		// ("*") and without a body, success and failures at every origin
+		for _, meth := range []string{"GET", "GET*", "HEAD", "DELETE", "DELETE*", "PUT*"} {
+			emit(line{rpc: "u", inj: "none", ct: cc.ct, acc: cc.acc, n: 1, ra: "by method", rb: meth, md: stdMD, meth: meth}.String())
+			emit(line{rpc: "s", inj: "none", ct: cc.ct, acc: cc.acc, n: 2, ra: "by method", rb: meth, meth: meth}.String())
+			for _, origin := range injOrigins {
+				emit(line{rpc: "u", inj: origin, err: sErr(5, "E5 via "+meth, "r"), ct: cc.ct, acc: cc.acc, meth: meth}.String())
+				emit(line{rpc: "u", inj: origin, err: sErr(9, "E9 via "+meth, "u"), ct: cc.ct, acc: cc.acc, meth: meth}.String())
+			}
+			emit(line{rpc: "u", inj: "deadline", ct: cc.ct, acc: cc.acc, tmo: "1m", meth: meth}.String())
+			count("e2e.method")
+		}
 		// UNARY target that sends its response message FIRST and then fails the call: non-OK status in the trailers
 		// (17 codes x detail payloads), a transport error (not a status), a deadline that expires while waiting for
 		// the status. forwardUnaryResponse holds the message back until the second Recv returned, nothing has been
@@ -1164,6 +1205,9 @@ func (Area) Gen(r *rand.Rand, tier string, emit func(string)) {
 			} else {
 				l.md = randMD(r)
 			}
+		}
+		if r.Intn(4) == 0 {
+			l.meth = common.Pick(r, []string{"GET", "GET*", "HEAD", "DELETE", "DELETE*", "PUT*", "PATCH*", "OPTIONS"})
 		}
 		emit(l.String())
 		count("e2e.random." + l.inj)
